@@ -1,0 +1,145 @@
+// Copyright 2021 TiKV Project Authors.
+//
+// Licensed under the Apache License, Version 2.0 (the "License");
+// you may not use this file except in compliance with the License.
+// You may obtain a copy of the License at
+//
+//     http://www.apache.org/licenses/LICENSE-2.0
+//
+// Unless required by applicable law or agreed to in writing, software
+// distributed under the License is distributed on an "AS IS" BASIS,
+// See the License for the specific language governing permissions and
+// limitations under the License.
+
+//go:build verif
+// +build verif
+
+// Machine-checked contracts for the DR auto-sync state machine (checked by /verif/govc; comment-only file).
+package replication
+
+//@ func (FileReplicater).ReplicateFileToAllMembers
+//@   assumed
+//@   option event replicateFile
+//@   modifies nothing
+
+// Every transition allocates a fresh state id, offers the new status to all members, saves it, and only then
+// serves it; any failure leaves the served status untouched. Entering sync_recover resets the scan cursor.
+//@ func (*ModeManager).drSwitchToAsyncWithLock
+//@   props C19
+//@   requires m.cluster != nil && m.storage != nil
+//@   ensures [fail-unchanged] result != nil ==> m.drAutoSync == old(m.drAutoSync)
+//@   ensures [published] result == nil ==> m.drAutoSync.State == "async" && m.drAutoSync.RecoverProgress == 0 && m.drAutoSync.TotalRegions == 0
+//@   ensures [order] result == nil ==> last("AllocID") > old(evclock[0]) && last("kvSave") > last("AllocID") && (m.fileReplicater != nil ==> last("replicateFile") > last("AllocID") && last("kvSave") > last("replicateFile"))
+//@   at ReplicateFileToAllMembers 1 assert [offered-before-served] m.drAutoSync == old(m.drAutoSync)
+//@   at SaveReplicationStatus 1 assert [saved-before-served] m.drAutoSync == old(m.drAutoSync)
+//@   at SaveReplicationStatus 1 assert [fresh-id] unbox(arg1, drAutoSyncStatus).StateID == id && unbox(arg1, drAutoSyncStatus).State == "async"
+//@   at SaveReplicationStatus 1 after assert [served-is-saved] true
+//@   modifies m.drAutoSync, ghost kvhas, ghost kvval
+
+//@ func (*ModeManager).drSwitchToSyncRecoverWithLock
+//@   props C19
+//@   requires m.cluster != nil && m.storage != nil
+//@   ensures [fail-unchanged] result != nil ==> m.drAutoSync == old(m.drAutoSync) && m.drRecoverCount == old(m.drRecoverCount) && m.drRecoverKey == old(m.drRecoverKey)
+//@   ensures [published] result == nil ==> m.drAutoSync.State == "sync_recover"
+//@   ensures [cursor-reset] result == nil ==> len(m.drRecoverKey) == 0 && m.drRecoverCount == 0
+//@   ensures [order] result == nil ==> last("AllocID") > old(evclock[0]) && last("kvSave") > last("AllocID")
+//@   at SaveReplicationStatus 1 assert [saved-before-served] m.drAutoSync == old(m.drAutoSync)
+//@   at SaveReplicationStatus 1 assert [fresh-id] unbox(arg1, drAutoSyncStatus).StateID == id && unbox(arg1, drAutoSyncStatus).State == "sync_recover"
+//@   modifies m.drAutoSync, m.drRecoverKey, m.drRecoverCount, ghost kvhas, ghost kvval, ghost evres
+
+//@ func (*ModeManager).drSwitchToSync
+//@   props C19
+//@   requires m.cluster != nil && m.storage != nil
+//@   ensures [fail-unchanged] result != nil ==> m.drAutoSync == old(m.drAutoSync)
+//@   ensures [published] result == nil ==> m.drAutoSync.State == "sync"
+//@   ensures [order] result == nil ==> last("AllocID") > old(evclock[0]) && last("kvSave") > last("AllocID")
+//@   at SaveReplicationStatus 1 assert [saved-before-served] m.drAutoSync == old(m.drAutoSync)
+//@   at SaveReplicationStatus 1 assert [fresh-id] unbox(arg1, drAutoSyncStatus).StateID == id && unbox(arg1, drAutoSyncStatus).State == "sync"
+//@   modifies m.drAutoSync, ghost kvhas, ghost kvval
+
+//@ func (*ModeManager).drSwitchToAsync
+//@   props C19
+//@   requires m.cluster != nil && m.storage != nil
+//@   ensures [fail-unchanged] result != nil ==> m.drAutoSync == old(m.drAutoSync)
+//@   ensures [published] result == nil ==> m.drAutoSync.State == "async"
+//@   modifies m.drAutoSync, ghost kvhas, ghost kvval
+
+//@ func (*ModeManager).drSwitchToSyncRecover
+//@   props C19
+//@   requires m.cluster != nil && m.storage != nil
+//@   ensures [fail-unchanged] result != nil ==> m.drAutoSync == old(m.drAutoSync)
+//@   ensures [published] result == nil ==> m.drAutoSync.State == "sync_recover" && len(m.drRecoverKey) == 0 && m.drRecoverCount == 0
+//@   modifies m.drAutoSync, m.drRecoverKey, m.drRecoverCount, ghost kvhas, ghost kvval, ghost evres
+
+// A region counts as recovered only if it starts exactly where the previous one ended and reports integrity
+// under the current state id.
+//@ func (*ModeManager).checkRegionRecover
+//@   props C19
+//@   ensures [integrity] result && region != nil && region.meta != nil ==> region.replicationStatus != nil && region.replicationStatus.StateId == m.drAutoSync.StateID && region.replicationStatus.State == 2
+//@   ensures [contiguous] result && region != nil && region.meta != nil ==> str(startKey) == str(region.meta.StartKey)
+//@   modifies nothing
+
+// Progress is 1 exactly when the scan has covered the whole key space; an estimate is always below 1.
+//@ func (*ModeManager).estimateProgress
+//@   props C19
+//@   requires sampleOK(m) && m.drRecoverCount >= 0 && m.drRecoverCount <= 281474976710656
+//@   ensures [complete] len(m.drRecoverKey) == 0 && m.drRecoverCount > 0 ==> result == 1
+//@   ensures [estimate-below-one] !(len(m.drRecoverKey) == 0 && m.drRecoverCount > 0) ==> result < 1
+//@   modifies m.drSampleTotalRegion
+
+// ---- the recovery scan ----
+// chain(k, n): there are n regions r1..rn, each reporting integrity under the current state id, with
+// r1 starting at "", each next one starting where the previous ended, and rn ending at k. It is the least
+// predicate closed under the two rules of chainDef (only the closure direction is ever used). The scan cursor
+// (drRecoverKey, drRecoverCount) always satisfies it, so "cursor back at the empty key with a positive count"
+// means the whole key space was covered contiguously.
+//@ pure recovered(m *ModeManager, r *core.RegionInfo) = r.replicationStatus != nil && r.replicationStatus.StateId == m.drAutoSync.StateID && r.replicationStatus.State == 2
+//@ pure chain(m *ModeManager, k []byte, n int) = ufb("chain", m.drAutoSync.StateID, str(k), n)
+//@ pure chainDef(m *ModeManager) = (forall id int :: { ufb("chain", id, "", 0) } ufb("chain", id, "", 0)) && (forall r *core.RegionInfo, n int :: { ufb("chain", r.replicationStatus.StateId, str(r.meta.StartKey), n) } r != nil && r.meta != nil && r.replicationStatus != nil && r.replicationStatus.State == 2 && ufb("chain", r.replicationStatus.StateId, str(r.meta.StartKey), n) ==> ufb("chain", r.replicationStatus.StateId, str(r.meta.EndKey), n + 1))
+//@ pure sampleOK(m *ModeManager) = 0 <= m.drSampleRecoverCount && m.drSampleRecoverCount <= 281474976710656 && 0 <= m.drSampleTotalRegion && m.drSampleTotalRegion <= 281474976710656 && 0 <= m.drTotalRegion && m.drTotalRegion <= 281474976710656
+//@ pure cursorOK(m *ModeManager) = m.drRecoverCount >= 0 && m.drRecoverCount <= 281474976710656 && (m.drRecoverCount == 0 ==> len(m.drRecoverKey) == 0) && chain(m, m.drRecoverKey, m.drRecoverCount)
+
+//@ func (*ModeManager).updateProgress
+//@   props C19
+//@   requires m.cluster != nil && chainDef(m) && cursorOK(m)
+//@   loop 3 invariant 0 <= m.drSampleRecoverCount && m.drSampleRecoverCount <= rangeindex + 1
+//@   ensures [cursor] cursorOK(m)
+//@   ensures [sample] old(sampleOK(m)) ==> sampleOK(m)
+//@   ensures [state-untouched] m.drAutoSync == old(m.drAutoSync)
+//@   loop 1 invariant cursorOK(m) && m.drAutoSync == old(m.drAutoSync)
+//@   loop 2 invariant cursorOK(m) && m.drAutoSync == old(m.drAutoSync)
+//@   loop 2 assume m.drRecoverCount < 281474976710656
+//@   modifies m.drRecoverKey, m.drRecoverCount, m.drSampleRecoverCount, m.drSampleTotalRegion, m.drTotalRegion
+
+//@ func (*ModeManager).drGetState
+//@   props C19
+//@   ensures result == m.drAutoSync.State
+//@   modifies nothing
+
+//@ func (*ModeManager).drCheckAsyncTimeout
+//@   props C19
+//@   option event drCheckAsyncTimeout
+//@   modifies ghost evres
+
+//@ func (*ModeManager).checkStoreStatus
+//@   props C19
+//@   requires m.cluster != nil
+//@   ensures primaryFailCount >= 0 && drFailCount >= 0
+//@   loop 1 invariant primaryFailCount >= 0 && drFailCount >= 0 && primaryFailCount <= rangeindex + 1 && drFailCount <= rangeindex + 1
+//@   modifies ghost evres
+
+// tickDR: -> async only when one datacenter has lost all its replicas (failed stores >= replica count) while a
+// majority of all replicas can still be up, the state is not async already and the wait timeout has passed;
+// async -> sync_recover only when both datacenters again have fewer failed stores than replicas;
+// sync_recover -> sync only when the estimated progress is exactly 1 (i.e. the scan covered the whole key space);
+// nothing happens outside dr-auto-sync mode.
+//@ func (*ModeManager).tickDR
+//@   props C19
+//@   requires m.cluster != nil && m.storage != nil && chainDef(m) && cursorOK(m)
+//@   requires 0 <= m.config.DRAutoSync.PrimaryReplicas && m.config.DRAutoSync.PrimaryReplicas <= 1000000 && 0 <= m.config.DRAutoSync.DRReplicas && m.config.DRAutoSync.DRReplicas <= 1000000
+//@   requires sampleOK(m)
+//@   at drSwitchToAsync 1 assert [to-async] (downPrimary >= totalPrimary || downDr >= totalDr) && upPeers * 2 > totalPrimary + totalDr && upPeers == ite(downPrimary < totalPrimary, totalPrimary - downPrimary, 0) + ite(downDr < totalDr, totalDr - downDr, 0) && m.drAutoSync.State != "async" && lastok("drCheckAsyncTimeout")
+//@   at drSwitchToSyncRecover 1 assert [to-sync-recover] downPrimary < totalPrimary && downDr < totalDr && m.drAutoSync.State == "async"
+//@   at drSwitchToSync 1 assert [to-sync] progress == 1 && m.drAutoSync.State == "sync_recover" && len(m.drRecoverKey) == 0 && m.drRecoverCount > 0 && chain(m, m.drRecoverKey, m.drRecoverCount)
+//@   ensures [not-dr-mode] old(m.config.ReplicationMode) != "dr-auto-sync" ==> m.drAutoSync == old(m.drAutoSync)
+//@   modifies *
